@@ -113,11 +113,25 @@ def run(case, out):
     e = out.call("to_empty_stack", GP.build(p).to_empty_stack)
     if e is not FAILED:
         _diff(out, "to_empty_stack:language", GP.extract(e).lang_empty_stack(N), lf)
-    # conversions of conversions close the loop
-    if f is not FAILED:
-        e2 = out.call("to_final_state.to_empty_stack", f.to_empty_stack)
+    # conversions of conversions: the intermediate result (built by the library, not through add_transition) is the
+    # "original" of the second conversion, its reference being its own extraction
+    for first, y in (("to_final_state", f), ("to_empty_stack", e)):
+        if y is FAILED:
+            continue
+        ry = GP.extract(y)
+        if len(ry.states) > 6 or len(ry.trans) > 40:
+            continue
+        f2 = out.call(first + ".to_final_state", y.to_final_state)
+        if f2 is not FAILED:
+            _diff(out, first + ".to_final_state:language", GP.extract(f2).lang_final_state(N), ry.lang_empty_stack(N))
+        e2 = out.call(first + ".to_empty_stack", y.to_empty_stack)
         if e2 is not FAILED:
-            _diff(out, "to_final_state.to_empty_stack:language", GP.extract(e2).lang_empty_stack(N), le)
+            _diff(out, first + ".to_empty_stack:language", GP.extract(e2).lang_empty_stack(N), ry.lang_final_state(N))
+        g2 = out.call(first + ".to_cfg", y.to_cfg)
+        if g2 is not FAILED and len(ry.states) <= 4:
+            rg2 = GC.extract(g2)
+            got2 = {tuple(k.split(":", 1)[1] for k in w) for w in rg2.words_upto(N)}
+            _diff(out, first + ".to_cfg:language", got2, ry.lang_empty_stack(N))
 
 
 def _words(alpha, n):
